@@ -100,21 +100,21 @@ S.norm = _patched_norm
 _FUNCS = {}
 
 
-def make_function(key, params, is_async):
-    """params: [{'n','k','d','ann'}]; annotated function recording its arguments"""
-    ck = (key, json.dumps(params), is_async)
+def make_function(key, params, is_async, view=False):
+    """params: [{'n','k','d','ann'}]; annotated function recording its arguments (d: False | True (marker default) | 'none')"""
+    ck = (key, json.dumps(params), is_async, view)
     if ck in _FUNCS:
         return _FUNCS[ck]
-    parts, star = [], False
+    parts, star = (['self'] if view else []), False
     for p in params:
         ann = f': {ANN_SRC[p["ann"]]}' if p.get('ann') else ''
-        d = f' = {S.DEFAULT!r}' if p['d'] else ''
+        d = ' = None' if p['d'] == 'none' else (f' = {S.DEFAULT!r}' if p['d'] else '')
         if p['k'] == 'ko' and not star:
             parts.append('*')
             star = True
         parts.append(f'{p["n"]}{ann}{d}')
-    recv = '{' + ', '.join(f'{p["n"]!r}: {p["n"]}' for p in params) + '}'
-    ns = {'_perform': S._perform, 'Optional': Optional, 'List': List, 'Dict': Dict, 'Any': Any, 'Point': Point, 'Color': Color}
+    recv = '{' + ', '.join([f'{p["n"]!r}: {p["n"]}' for p in params] + (["'<self.context>': _ctx_mark(self.context)"] if view else [])) + '}'
+    ns = {'_perform': S._perform, '_ctx_mark': S.ctx_mark, 'Optional': Optional, 'List': List, 'Dict': Dict, 'Any': Any, 'Point': Point, 'Color': Color}
     src = f'{"async " if is_async else ""}def f({", ".join(parts)}):\n    return _perform({key!r}, {recv})\n'
     exec(compile(src, '<generated method>', 'exec', dont_inherit=True), ns)      # no `from __future__ import annotations`
     _FUNCS[ck] = ns['f']
@@ -145,12 +145,18 @@ def build(c, is_async):
     key = json.dumps([v, c['params'], c['cfg']['methods'][0].get('ctx'), is_async, c.get('twin')], sort_keys=True)
     if key in _DISP:
         return _DISP[key]
-    f = make_function('f#' + key[:40] + str(len(_DISP)), c['params'], is_async)
+    view = bool(c['cfg']['methods'][0].get('view'))
+    f = make_function('f#' + key[:40] + str(len(_DISP)), c['params'], is_async, view)
     # a fresh function object per configuration: the validation meta is attached to the function
     import types
     g = types.FunctionType(f.__code__, f.__globals__, f.__name__, f.__defaults__, f.__closure__)
     g.__kwdefaults__ = f.__kwdefaults__
     g.__annotations__ = dict(f.__annotations__)
+    if view:
+        def _init(self, context=None):
+            pjrpc.server.ViewMixin.__init__(self)
+            self.context = context
+        V = type('V', (pjrpc.server.ViewMixin,), {'__init__': _init, 'vm': g})
     val = get_validator(v['kind'], v.get('coerce', True), v.get('excluded') or [])
     if v['kind'] == 'jsonschema':
         # validator arguments given for *this* method only (besides its schema)
@@ -160,7 +166,10 @@ def build(c, is_async):
         val.validate(g)
     d = (pjrpc.server.AsyncDispatcher if is_async else pjrpc.server.Dispatcher)()
     m = c['cfg']['methods'][0]
-    d.add(g, 'f', context=m.get('ctx'))
+    if view:
+        d.registry.add_methods(pjrpc.server.dispatcher.ViewMethod(V, 'vm', 'f', m.get('ctx')))
+    else:
+        d.add(g, 'f', context=m.get('ctx'))
     if c.get('twin'):
         # the same function exposed a second time, with another context designation, under the same validator
         d.add(g, 'g', context=c['twin']['ctx'])
@@ -224,7 +233,8 @@ def reference(c):
     v = c['validator']
     ctx = m.get('ctx')
     excluded = set(v.get('excluded') or [])
-    visible = [p for p in c['params'] if p['n'] != ctx and p['n'] not in excluded]
+    view = bool(m.get('view'))
+    visible = [p for p in c['params'] if (p['n'] != ctx or view) and p['n'] not in excluded]
     req = json.loads(c['text'])
     params = req.get('params', [])
     try:
@@ -253,18 +263,22 @@ def reference(c):
         final = dict(args)
     recv = {}
     for p in c['params']:
-        if p['n'] == ctx:
+        if p['n'] == ctx and not view:
             recv[p['n']] = '<CTX>'
         elif p['n'] in final:
             recv[p['n']] = norm_value(final[p['n']])
         else:
             recv[p['n']] = S.DEFAULT
+    if view:
+        recv['<self.context>'] = '<CTX>' if ctx else '<none>'
     return 'accept', recv
 
 
-def make_case(params, validator, ctx, req_params, tag='validators', twin=None):
-    sig = [{'n': p['n'], 'k': p['k'], 'd': p['d']} for p in params]
+def make_case(params, validator, ctx, req_params, tag='validators', twin=None, view=False):
+    sig = [{'n': p['n'], 'k': p['k'], 'd': bool(p['d'])} for p in params]
     m = D.M('f', sig, D.ECHO)
+    if view:
+        m['view'] = True
     if ctx:
         m['ctx'] = ctx
     if validator.get('excluded'):
@@ -280,11 +294,12 @@ def make_case(params, validator, ctx, req_params, tag='validators', twin=None):
     if kind == 'reject':
         m['post'] = {'k': 'reject'}
     elif kind == 'accept':
-        args = {k: v for k, v in recv.items() if v != S.DEFAULT and k != ctx}
+        hidden = {'<self.context>'} | ({ctx} if (ctx and not view) else set())
+        args = {k: v for k, v in recv.items() if v != S.DEFAULT and k not in hidden}
         # with coercion pydantic hands over every model field, defaults included
         if validator['kind'] == 'pydantic' and validator.get('coerce', True):
             excluded = set(validator.get('excluded') or [])
-            args = {k: v for k, v in recv.items() if k != ctx and k not in excluded}
+            args = {k: v for k, v in recv.items() if k not in hidden and k not in excluded}
         m['post'] = {'k': 'replace', 'args': enc(args)}
     c['expected'] = {'kind': kind, 'recv': None if recv is None else enc(recv)}
     return c
@@ -318,6 +333,23 @@ def generate(tier, rng):
                                     twin={'ctx': None, 'params': {'ctx': 1, 'a': v1}})
                     yield make_case(paramsc, {'kind': 'pydantic', 'coerce': coerce}, None, rp, tag='validators-twin',
                                     twin={'ctx': 'ctx', 'params': {'a': v1}})
+    # a parameter that defaults to None is not thereby Optional: an explicit null does not conform to `int`
+    for coerce in (True, False):
+        for ann in ('int', 'str', 'float', 'listint', 'optint'):
+            params = [{'n': 'b', 'k': 'pk', 'd': False, 'ann': 'int'}, {'n': 'a', 'k': 'pk', 'd': 'none', 'ann': ann}]
+            for val in [None] + VALUES[ann][:3]:
+                for rp in ([1, val], {'a': val, 'b': 1}):
+                    yield make_case(params, {'kind': 'pydantic', 'coerce': coerce}, None, rp, tag='validators-none-default')
+    # class-based views take the context through the constructor: a method parameter that happens to share the context
+    # name is an ordinary, validated parameter
+    for kind in ('pydantic', 'jsonschema', 'base'):
+        v = {'kind': kind}
+        if kind == 'jsonschema':
+            v['schema'] = {'type': 'object', 'properties': {'request': {'type': 'string'}, 'times': {'type': 'integer'}}, 'required': ['request']}
+        params = [{'n': 'request', 'k': 'pk', 'd': False, 'ann': 'str'}, {'n': 'times', 'k': 'pk', 'd': True, 'ann': 'int'}]
+        for ctxname in ('request', 'times', 'other', None):
+            for rp in (['ping'], ['ping', 2], {'request': 'ping', 'times': 2}, {'times': 2}, {}, {'request': 1}, ['ping', 'x'], {'request': 'ping', 'other': 1}):
+                yield make_case(params, v, ctxname, rp, tag='validators-view', view=True)
     # --- jsonschema: per-parameter fragments, required, additionalProperties ----------------------
     for name, (frag, vals) in SCHEMAS.items():
         for val in vals:
@@ -367,7 +399,8 @@ halves = D.halves
 
 
 def relevant(prop, c):
-    return prop == 'C14'
+    # C03 "parameters that do not bind to, or do not validate against, the method -> -32602 without running it"
+    return prop == 'C14' or (prop == 'C03' and not c.get('twin'))
 
 
 def _proj_one(o):
@@ -383,9 +416,12 @@ def _proj_one(o):
 
 
 def project(prop, c, out):
-    if prop != 'C14':
+    if prop not in ('C14', 'C03'):
         return None
     hs = halves(out)
+    if prop == 'C03':
+        return {h: {k: v for k, v in _proj_one(hs[h]).items() if k in ('k', 'error_code') or k == 'exec' and False} | {'ran': bool(_proj_one(hs[h])['exec'])}
+                for h in HALVES}
     return {h: _proj_one(hs[h]) for h in HALVES}
 
 
@@ -398,9 +434,11 @@ def label(c, mo):
 
 def oracle(prop, c, out):
     f = []
-    if prop != 'C14':
+    if prop not in ('C14', 'C03'):
         return f
     want = c['expected']
+    if prop == 'C03' and want['kind'] not in ('nobind', 'reject'):
+        return f
     for half in HALVES:
         o = out[half]
         p = _proj_one(o)
